@@ -65,7 +65,12 @@ func (its *jsonObject) putCommon(key string, value interface{}, ts *model.Timest
 			jsonElement: removed from NodeMap, not added to Cemetery.
 			jsonObject, jsonArray: remain in NodeMap, added to Cemetery.
 		*/
+		wasTomb := removedJSON.isTomb()
 		its.funeral(removedJSON, putJSON.getCreateTime())
+		if wasTomb && removedJSON != newChild {
+			// the key had already been deleted: no visible value was replaced
+			return nil
+		}
 		return removedJSON
 	}
 	return nil
